@@ -69,7 +69,7 @@ def run(rep, tier, seed):
     fixed = lf.replay_known(rep, "C13", oracle)
     cases = [c for c in fixed if c.settings[0] == "LR"] + cases
     glr = [c for c in fixed if c.settings[0] == "GLR"] + glr
-    lf.run_cases(cases)
+    lf.run_cases(cases, extra_requests=lambda c: ["cert noshiftstop"])
     lf.run_cases(glr, model=False)
     check(rep, cases, glr, proofs_ok)
 
@@ -79,7 +79,15 @@ def check(rep, cases, glr, proofs_ok):
                        "LR (LALR_PAGER, model+oracle) and GLR (LALR_RN, oracle on every tree of the forest up to 64); inputs: "
                        "strings up to length 3, sentences, mutations, with whitespace/newline/CRLF/NBSP insertions; "
                        "distinct = (grammar, settings, input)")
-    f1, _ = lf.evaluate(rep, cases, oracle, proofs_ok, PROP_MODULE,
+    def orc(c):
+        bad = oracle(c)
+        ex = getattr(c, "extra", None)
+        if ex:
+            rep.count("cert_noShiftStop_" + ("pass" if ex[0] == "1" else "FAIL"))
+            if ex[0] != "1":
+                bad.append((None, "Cert.noShiftStop fails on the compiler's table: hypothesis of C13_lr_spans not met"))
+        return bad
+    f1, _ = lf.evaluate(rep, cases, orc, proofs_ok, PROP_MODULE,
                         in_scope=lambda c: tp.parse_dump(c.dump)["conflicts"] == 0)
     if glr:
         lf.evaluate(rep, glr, oracle, True, PROP_MODULE, compare_model=False, known_class=known_class)
@@ -92,5 +100,5 @@ def replay(rep, path):
     g = lf.parse_bnf(p["grammar"])
     algo = p.get("algo", "LR")
     c = lf.Case(p["grammar"], p["settings"].split(" "), [(algo, p.get("partial", "0"), p.get("input", ""), {})], gram=g)
-    lf.run_cases([c], model=(algo == "LR"))
+    lf.run_cases([c], model=(algo == "LR"), extra_requests=(lambda c: ["cert noshiftstop"]) if algo == "LR" else None)
     check(rep, [c] if algo == "LR" else [], [c] if algo != "LR" else [], True)
